@@ -48,3 +48,5 @@ CFG = dict(
     ],
     timeout=900,
 )
+
+CFG["rule"] += " C04G: replies of a generated (fast-path) message type with sub-messages (grpc-go's channelz GetServerResponse through its implicit rule) from a handler that keeps one reply object and refreshes it in place between calls, binary and JSON. Variants 2-4 of C04: three muxes created one after the other (one custom codec / another custom codec sorting before every built-in type / none), each judged against its own codecs."
